@@ -22,6 +22,13 @@ func snapMonitors() []monitor.Monitor {
 	return []monitor.Monitor{a, cm, &monitor.Snapshots{A: a, C: cm}, &monitor.Leader{}, &monitor.LogMatch{}, &monitor.Linear{A: a}}
 }
 
+// snapshot monitors plus the durability monitor of C04
+func snapDurMonitors() []monitor.Monitor {
+	a := &monitor.Apply{}
+	cm := &monitor.Commit{}
+	return []monitor.Monitor{a, cm, &monitor.Snapshots{A: a, C: cm}, &monitor.Leader{}, &monitor.LogMatch{}, &monitor.Linear{A: a}, &monitor.Durable{A: a}}
+}
+
 var scenarios = map[string]*sched.Scenario{}
 
 func regScenario(s *sched.Scenario) {
@@ -89,9 +96,9 @@ func init() {
 		if tier == "thorough" {
 			pl = []schedPlan{{"snap1-seq", 4, 600}, {"snap1-par", 3, 500}, {"snap1-big", 3, 400}, {"inst3-restore", 4, 600}, {"inst3-compact", 4, 600}}
 		}
-		cl := []plan{{"snap3-d2", 80}, {"memsnap3-d2", 70}, {"stalesuffix3-d2", 65}}
+		cl := []plan{{"snap3-d2", 80}, {"memsnap3-d2", 70}, {"stalesuffix3-d2", 65}, {"slowsnap3-d2", 40}}
 		if tier == "thorough" {
-			cl = []plan{{"snap3-d3", 500}, {"memsnap3-d3", 400}, {"bigsnap3-d2", 200}, {"stalesuffix3-d3", 300}}
+			cl = []plan{{"snap3-d3", 500}, {"memsnap3-d3", 400}, {"bigsnap3-d2", 200}, {"stalesuffix3-d3", 300}, {"slowsnap3-d3", 500}}
 		}
 		return schedCheckWith(prop, tier, pl, nil, cl)
 	}
